@@ -16,7 +16,7 @@ RULE = ('control-profile generated functions (nested block/loop/if with and with
 def main(chk):
     quick = chk.tier == 'quick'
     w2c2 = env.build_translator('plain')
-    nmods = 40 if quick else 1200
+    nmods = 120 if quick else 1200
     vectors = 12 if quick else 24
     pbuilds = [('gcc-O1', 'gcc', ['-O1'], [], None)]
     if not quick:
